@@ -41,7 +41,7 @@ type SupOpts struct {
 	Deadline    time.Time     // if set, children stop taking new cases after it (Supervise then returns < N)
 }
 
-func IsChild() bool { return os.Getenv("VERIF_CHILD") == "1" }
+func IsChild() bool     { return os.Getenv("VERIF_CHILD") == "1" }
 func ChildMode() string { return os.Getenv("VERIF_CHILD_MODE") }
 
 // ChildLoop runs cases start, start+stride, ... < n.
